@@ -32,6 +32,47 @@ def fieldset_dispatch(syn, efile):
     return None, {}
 
 
+def helper_cases(hfn, fmt, efile):
+    """a field-type helper: one match on its symbol parameter -> {kind: (ok, description, line)}"""
+    out = {}
+    params = [i["pat"]["name"] for i in hfn["inputs"] if "pat" in i and i["pat"].get("k") == "PIdent"]
+    stmts = hfn["body"]["stmts"]
+    if not (len(stmts) == 1 and stmts[0]["k"] == "ExprStmt" and stmts[0]["expr"]["k"] == "Match" and ident_of(stmts[0]["expr"]["expr"]) in params):
+        return {"?": (False, "helper `%s` is not a single match on its symbol parameter" % hfn["name"], hfn["line"])}
+    for a in stmts[0]["expr"]["arms"]:
+        ptxt = unparse(a["pat"])
+        m = re.match(r"^IdentOrTerminalIdent::(Ident|Terminal)\((\w+)\)$", ptxt.replace(" ", ""))
+        if not m or a.get("guard"):
+            out["?" + ptxt] = (False, "arm `%s` of helper `%s` is not a plain symbol-kind arm" % (ptxt, hfn["name"]), a["line"])
+            continue
+        b = m.group(2)
+        body = a["body"]
+        fmts = [x for x in nodes(body, "Macro") if x["name"] == "format"]
+        conds = nodes(body, "If") + nodes(body, "Match")
+        if m.group(1) == "Ident":
+            okk = False
+            why = "nonterminal case must be one unconditional `Box<{name}>` template"
+            if len(fmts) == 1 and not conds:
+                tt = [t for t in fmt if t.node is fmts[0]]
+                if tt:
+                    toks = tt[0].tokens
+                    src = tpl.resolve_text(tt[0], toks[2].ph).replace(" ", "") if len(toks) == 4 and toks[2].k == "ph" else None
+                    okk = len(toks) == 4 and toks[0].s == "Box" and toks[1].s == "<" and toks[3].s == ">" and src in ("expr:&%s.name" % b, "expr:%s.name" % b)
+                    why = "Box<%s>" % src if okk else "nonterminal case prints `%s` (type from `%s`), not `Box<{its own type name}>`" % (tt[0].text, src)
+            out["nonterminal"] = (okk, why, a["line"])
+        else:
+            tail = body
+            while tail["k"] == "Block" and tail["block"]["stmts"]:
+                tail = tail["block"]["stmts"][-1].get("expr") or tail
+                if tail["k"] == "Block":
+                    continue
+                break
+            txt = unparse(tail).replace(" ", "")
+            okk = bool(re.match(r"^self\.file\.terminal_enum\.get_type\(&%s\.name\)(\.unwrap\(\)|\?)(\.to_owned\(\)|\.to_string\(\)|\.clone\(\))?$" % re.escape(b), txt)) and not conds and not fmts
+            out["terminal"] = (okk, "payload type from %s" % txt if okk else "terminal case must be the payload type looked up under the field's own terminal name, found `%s`" % txt[:120], a["line"])
+    return out
+
+
 def run_rules(ctx, res):
     PUBT, PUBF, SIG, BOX, ORD = "R-C06-pubtype", "R-C06-pubfield", "R-C06-sig", "R-C06-box", "R-C06-order"
     res.rule(PUBT, "every template that opens a user type definition begins it with `pub struct {name}` / `pub enum {name}` (terminal enum and both nonterminal kinds)")
@@ -209,6 +250,30 @@ def run_rules(ctx, res):
             # binder names of the pattern
             binders = re.findall(r"(?:Ident|Terminal)\((\w+)\)", ptxt)
             sym_b = binders[-1] if binders else None
+            kind_in_pat = bool(re.search(r"IdentOrTerminalIdent::(Ident|Terminal)\(", ptxt))
+            if not kind_in_pat:
+                # the arm does not distinguish the symbol kind itself: the type text must come from one helper
+                # `self.H(<this field's symbol>)` that matches on the kind and prints Box<name> / the payload type
+                n_arms -= 1
+                okh = len(rest) == 2 and rest[0].k == "ph" and rest[1].s == ","
+                src = tpl.resolve_text(t, rest[0].ph).replace(" ", "") if okh else ""
+                clo_p = unparse(clo["inputs"][0]) if clo.get("inputs") else "field"
+                used_b = re.findall(r"Used\((\w+)\)", ptxt)
+                sym_ok = r"(?:&%s\.symbol%s)" % (re.escape(clo_p), ("|" + re.escape(used_b[0])) if used_b else "")
+                mh = re.match(r"^expr:self\.(\w+)\((%s)\)$" % sym_ok, src)
+                if not (okh and mh and mh.group(1) in fns):
+                    res.violate(BOX, key, t.where, "field line `%s`: the type is neither decided by the arm's own symbol kind nor printed by a helper applied to this field's own symbol (`%s`)" % (t.text, src))
+                    continue
+                got = helper_cases(fns[mh.group(1)], fmt, efile)
+                res.inst(BOX, key, t.where, True, "type printed by helper %s: %s" % (mh.group(1), sorted(got)))
+                for kind_, (okk, why_, line_) in sorted(got.items()):
+                    n_arms += 1
+                    res.inst(BOX, "%s|helper|%s" % (key, kind_), "%s:%d" % (efile, line_), True, why_)
+                    if not okk:
+                        res.violate(BOX, "%s|helper|%s" % (key, kind_), "%s:%d" % (efile, line_), why_)
+                if set(got) != {"nonterminal", "terminal"}:
+                    res.violate(BOX, key + "|helper-cases", t.where, "helper `%s` does not have exactly one case per symbol kind (found %s)" % (mh.group(1), sorted(got)))
+                continue
             if "Terminal(" in ptxt.split(",")[-1] or ptxt.rstrip(") ").endswith("Terminal(%s" % sym_b):
                 # terminal-typed: {type} ,
                 ok = len(rest) == 2 and rest[0].k == "ph" and rest[1].s == ","
@@ -226,7 +291,7 @@ def run_rules(ctx, res):
                 res.inst(BOX, key, t.where, True, "Box<%s>" % src)
                 if not ok:
                     res.violate(BOX, key, t.where, "a nonterminal-typed field must be printed as `Box<{its own type name}>`; template `%s` (type from `%s`)" % (t.text, src))
-        res.floor("field arms of the %s renderer" % shape.lower(), n_arms, 3)
+        res.floor("field cases of the %s renderer (skipped, nonterminal, terminal)" % shape.lower(), n_arms, 3)
     # call sites of the dispatcher: struct site sets the option, variant site does not
     sites = []
     for (p, impl, fn) in syn.all_fns(path=efile):
